@@ -267,6 +267,29 @@ def r13_7(ctx, fx):
     ctx.anchor("R13.7", "for loops over request contexts", n, 4, cfg=fx.cfg)
 
 
+def r13_8(ctx, fx):
+    """a request waiting for its substream cannot wait forever.  A pending outbound open is answered by the connection task (R08.5)
+    unless that task dies; when the peer has a second connection the protocol is not told about the death (TransportService promotes
+    the secondary silently), so either (i) the protocol arms its own timer when it files the request under `pending_outbound`, or
+    (ii) TransportService fails the opens that were pending on a closed connection while the peer stays connected (a
+    SubstreamOpenFailure produced in on_connection_closed)."""
+    timers = False
+    for key in sorted(fx.find(r"^protocol::request_response::RequestResponseProtocol::(on_send_request|on_connection_established)::\{closure#0\}$")):
+        fn = fx.fn(key)
+        ins = [c for c in fn.calls(r"HashMap(<.*>)?::insert$") if ".pending_outbound" in fn.recv(c) and ".pending_outbound_" not in fn.recv(c)]
+        tm = fn.calls(r"tokio::time::(sleep|timeout|sleep_until)$|futures_timer::Delay::new$")
+        if ins and tm:
+            timers = True
+    fn = ctx.fn(fx, "protocol::transport_service::TransportService::on_connection_closed", "R13.8")
+    fails = False
+    if fn is not None:
+        holders = [fn] + [fx.fn(k) for k in sorted(fx.find("^" + re.escape(fn.key) + r"::\{closure#\d+\}"))]
+        fails = any(h.aggregates(r"TransportEvent$", "SubstreamOpenFailure") for h in holders)
+    ctx.ob("R13.8", "pending-outbound-open-is-bounded-when-its-connection-dies-beside-a-second-one", timers or fails, cfg=fx.cfg,
+           site=fn.site(fn.entry) if fn is not None else "",
+           detail="(i) timer armed with pending_outbound.insert: %s; (ii) TransportService::on_connection_closed fails the opens pending on the closed connection: %s" % (timers, fails))
+
+
 def r13_5(ctx, fx):
     # the future pushed in on_outbound_substream yields tuples whose request id is the captured one
     keys = fx.find(r"^protocol::request_response::RequestResponseProtocol::on_outbound_substream::\{closure#0\}::\{closure#\d+\}$")
@@ -340,3 +363,8 @@ def run(ctx):
     r13_4(ctx, fx)
     r13_5(ctx, fx)
     r13_7(ctx, fx)
+    r13_8(ctx, fx)
+    # a request / query parked behind a dial is settled only if the dial's outcome is reported: the transport manager's obligations
+    # R05.9 (stated in rules/C05.py) are part of this property's argument and evaluated here too
+    import C05
+    C05.r05_9(ctx, fx, which=("Reject", "DialPeer"))
